@@ -53,3 +53,9 @@ pub fn bytes(b: &[u8]) -> String {
     s
 }
 pub fn get_bytes(s: &Sx) -> Vec<u8> { s.list().iter().map(|x| x.int() as u8).collect() }
+pub fn show(s: &Sx) -> String {
+    match s {
+        Sx::A(a) => a.clone(),
+        Sx::L(l) => format!("({})", l.iter().map(show).collect::<Vec<_>>().join(" ")),
+    }
+}
